@@ -8,6 +8,47 @@ CHECKS = {
    technique="stateful model-based property testing (rapid) against a sorted-map model; small-scope exhaustive enumeration in the thorough tier",
    text="Generated histories (insert/update/delete/lookup/iterate/clone/persist/reload, every key and value type, bf 2-64, both formats, all cache kinds) are applied to mast and to a sorted-map model and compared after every step; thorough adds every insert/delete word of length <=5 over 4 user keys x 81 layer tables. Held-on-everything-explored, not a proof.",
    note="Trusted: Go stdlib (encoding/json as the configured default marshaler), rapid, the harness' own model. Nil keys/values not generated."),
+
+ "C02": dict(cat="exploration", design="DESIGN.md §4 C02",
+   technique="stateful property testing (rapid): snapshot model of every captured version re-checked after every operation",
+   text="Programs over 4 version slots sharing one store and one cache (none / unbounded / FIFO-evicting 1-3 / ARC) with clones, frozen clones, held cursors and retained roots; after every op all other slots, frozen clones and the last 4 retained roots (reloaded through the shared cache and cache-less) are compared with the snapshot taken at capture. Sampled histories, not a proof.",
+   note="A failure of the operated tree itself aborts the case (C01's subject). Held cursors read with Min/Forward/Get."),
+ "C04": dict(cat="exploration", design="DESIGN.md §4 C04",
+   technique="metamorphic + differential property testing: two generated histories to the same entry set vs. an independently built reference MST; small-scope exhaustive enumeration (thorough)",
+   text="Two independent histories (separate stores) are driven to the same generated entry set; both final roots and every intermediate persisted root must equal {Link,Height,Size} of the unique MST built by the harness' own reference (own BLAKE2b, encoder, layer functions, height rule). Thorough adds all insertion orders of n+2<=6 user keys x all layer tables in {0,1,2}^(n+2) x bf in {2,3} followed by two deletes.",
+   note="Trusted: harness/ref (pinned by C14's golden vectors), encoding/json. Custom marshaler only with the binary format."),
+ "C05": dict(cat="exploration", design="DESIGN.md §4 C05",
+   technique="round-trip property testing (persist -> load, Root via JSON) inside model-based histories",
+   text="At every persist of generated histories (8 key types x 4 value types x 2 formats x default/custom codec x 7 cache kinds) the returned root is loaded four ways (direct / via JSON x shared cache / no cache) and compared with the model entry by entry plus Size, Height, BranchFactor and NodeFormat; histories continue on reloaded trees.",
+   note="Only types whose encoding round-trips are generated (the property's own restriction)."),
+ "C06": dict(cat="exploration", design="DESIGN.md §4 C06",
+   technique="model-based differential property testing: DiffIter / StartDiff+NextEntry vs. the difference of two model maps",
+   text="Ordered pairs of trees (derived by clone/reload + ops, unrelated, identical, empty/emptied, nil old; in memory / persisted / reloaded) are diffed through both interfaces and compared with the model difference (keys, order, kinds, old/new values, once each), including early stop by false / by error at a generated index and read-onlyness.",
+   note="Both trees share one configuration (precondition of the property)."),
+ "C07": dict(cat="exploration", design="DESIGN.md §4 C07",
+   technique="property testing with node-set oracle from a recording store + replica round-trip",
+   text="For generated ordered pairs of persisted versions the DiffLinks callbacks are compared with the node sets reachable from each root (new\\old subset added subset new, symmetric for removed, once each, names only) and a replica seeded with old + added must load the new version completely.",
+   note="Versions whose roots are incomplete abort the case (C03's subject)."),
+ "C08": dict(cat="exploration", design="DESIGN.md §4 C08",
+   technique="property testing over every Store call with an independent hash and codec (decode/re-encode round-trip)",
+   text="Every Store(name, bytes) issued by generated histories is checked against an independent BLAKE2b-256/base64url, decoded and re-encoded byte-identically by the reference codec, and name<->bytes<->content must be functions; equal root names must have equal model contents.",
+   note="Trusted: harness/ref BLAKE2b (RFC 7693 vector checked in C14) and codecs."),
+ "C09": dict(cat="exploration", design="DESIGN.md §4 C09",
+   technique="property testing with a reference shape validator over every persisted version; small-scope exhaustive enumeration (thorough)",
+   text="Every version persisted by generated histories (adversarial generated layer tables, bf 2-64) is decoded from the store and validated clause by clause (levels, childless leaves, global key order, layer==level, pass-through-only empty nodes, Size). Thorough re-uses C04's exhaustive enumeration persisting after every op.",
+   note="Validator and decoders are the harness' own."),
+ "C10": dict(cat="exploration", design="DESIGN.md §4 C10",
+   technique="model-based property testing: cursor walks and SeekIter vs. an index into the sorted model keys",
+   text="On generated trees (any residency) cursors start at Min / Max / Ceil(probe of any layer, present or absent) and follow generated Forward/Backward words; Get must equal the model entry at the tracked index or report no entry off the ends; SeekIter(probe) with optional ErrIterDone must yield exactly the entries >= probe.",
+   note="Ceil only on a fresh cursor; nothing asserted after stepping off an end."),
+ "C13": dict(cat="exploration", design="DESIGN.md §4 C13",
+   technique="property testing with a recording store: Store calls of every MakeRoot vs. node sets and key ranges of the previous and new version",
+   text="For every MakeRoot of generated histories: writes subset of nodes reachable from the returned root; no modification => no writes and the same root; at unchanged height, rewritten nodes of the previous version contain a modified key in their (closed) range and |writes| <= (2h+2) x #modified keys; IsDirty()==false implies contents == base version, checked after every op.",
+   note="Key ranges taken closed; only the stated direction of IsDirty is asserted."),
+ "C15": dict(cat="exploration", design="DESIGN.md §4 C15",
+   technique="property testing of a cost bound: distinct Persist.Load names per diff call vs. 2D+2 from the reference node sets",
+   text="DiffIter and DiffLinks on freshly opened, cache-less trees may load at most 2D+2 distinct nodes (D = symmetric difference of the reachable node sets) and none for identical versions; generated pairs plus enumerated large trees (up to 3000 / 60000 keys) differing in 1-5 keys.",
+   note="Loads counted on a recording store without cache."),
 }
 
 ALL = ["C%02d" % i for i in range(1, 20)]
